@@ -13,6 +13,7 @@ import (
 	"go/ast"
 	"go/token"
 	"strconv"
+	"strings"
 )
 
 // countSel counts calls whose callee is a selector (or identifier) named name.
@@ -132,6 +133,194 @@ func init() {
 		}
 		w.Line("/-- `globalfilter.Spec.Validate` validates both pipeline specs -/")
 		w.Line("def gfValidateCalls : Nat := %d", countSel(gv.Body, "Validate"))
-		return nil
+		return c02ReloadFacts(r, w)
 	}})
+}
+
+// c02ReloadFacts: the flow-synthesis / binding skeleton of Pipeline.reload and the existence conditions
+// of GlobalFilter.reload, by role (the local that ends up in `p.flow` is FLOW, the range variable over
+// the filter specs RAW, the result of filters.NewSpec SPEC), so that renaming locals does not disturb them.
+func c02ReloadFacts(r *Repo, w *Lean) error {
+	const pl = "pkg/object/pipeline/pipeline.go"
+	const gf = "pkg/object/globalfilter/globalfilter.go"
+	fd, err := r.Func(pl, "Pipeline", "reload")
+	if err != nil {
+		return err
+	}
+	recv := fd.Recv.List[0].Names[0].Name
+	// the local stored into <recv>.flow, and the position of that store
+	flowVar, storeIdx := "", -1
+	for i, st := range fd.Body.List {
+		if as, ok := st.(*ast.AssignStmt); ok && len(as.Lhs) == 1 && len(as.Rhs) == 1 && r.Src(as.Lhs[0]) == recv+".flow" {
+			if id, ok := as.Rhs[0].(*ast.Ident); ok {
+				flowVar, storeIdx = id.Name, i
+			}
+		}
+	}
+	if flowVar == "" {
+		return fmt.Errorf("reload: no `%s.flow = <local>`", recv)
+	}
+	canon := func(n ast.Node, raw, spec string) string {
+		src := " " + r.Src(n) + " "
+		rep := func(name, role string) {
+			if name == "" {
+				return
+			}
+			out, i := "", 0
+			for i < len(src) {
+				j := i
+				for j < len(src) && (src[j] == '_' || src[j] >= 'a' && src[j] <= 'z' || src[j] >= 'A' && src[j] <= 'Z' || src[j] >= '0' && src[j] <= '9') {
+					j++
+				}
+				if j > i {
+					if src[i:j] == name && (i == 0 || src[i-1] != '.') {
+						out += role
+					} else {
+						out += src[i:j]
+					}
+					i = j
+				} else {
+					out += string(src[i])
+					i++
+				}
+			}
+			src = out
+		}
+		rep(flowVar, "FLOW")
+		rep(raw, "RAW")
+		rep(spec, "SPEC")
+		rep(recv, "P")
+		return src[1 : len(src)-1]
+	}
+	// every statement (at any depth) that assigns the flow local, in source order, with the enclosing
+	// if-condition and range expression
+	var writes []string
+	loopIdx, bindIdx := -1, -1
+	var walk func(st ast.Stmt, ctx string, raw, spec string)
+	walkList := func(l []ast.Stmt, ctx, raw, spec string) {
+		for _, s := range l {
+			// the filters.NewSpec result inside the loop
+			if as, ok := s.(*ast.AssignStmt); ok && len(as.Rhs) == 1 {
+				if ce, ok := as.Rhs[0].(*ast.CallExpr); ok && r.Src(ce.Fun) == "filters.NewSpec" && len(as.Lhs) >= 1 && len(ce.Args) == 3 {
+					if id, ok := as.Lhs[0].(*ast.Ident); ok {
+						spec = id.Name
+						if a, ok := ce.Args[2].(*ast.Ident); !ok || a.Name != raw {
+							spec = "" // not built from the range variable
+						}
+					}
+				}
+			}
+			walk(s, ctx, raw, spec)
+		}
+	}
+	walk = func(st ast.Stmt, ctx, raw, spec string) {
+		switch x := st.(type) {
+		case *ast.AssignStmt:
+			for _, l := range x.Lhs {
+				if id, ok := l.(*ast.Ident); ok && id.Name == flowVar {
+					writes = append(writes, ctx+canon(x, raw, spec))
+				}
+			}
+		case *ast.IfStmt:
+			c := ctx + "if " + canon(x.Cond, raw, spec) + " { "
+			walkList(x.Body.List, c, raw, spec)
+			if x.Else != nil {
+				walk(x.Else, ctx+"else { ", raw, spec)
+			}
+		case *ast.BlockStmt:
+			walkList(x.List, ctx, raw, spec)
+		case *ast.RangeStmt:
+			rv := ""
+			if id, ok := x.Value.(*ast.Ident); ok {
+				rv = id.Name
+			}
+			walkList(x.Body.List, ctx+"range "+canon(x.X, rv, spec)+" { ", rv, spec)
+		case *ast.ForStmt:
+			walkList(x.Body.List, ctx+"for { ", raw, spec)
+		}
+	}
+	for i, st := range fd.Body.List {
+		if rs, ok := st.(*ast.RangeStmt); ok {
+			switch canon(rs.X, "", "") {
+			case "P.spec.Filters":
+				loopIdx = i
+			case "FLOW":
+				bindIdx = i
+			}
+		}
+		walk(st, "", "", "")
+	}
+	w.Line("/-- `Pipeline.reload`: every assignment to the local that is stored into `p.flow` (FLOW), in source order,")
+	w.Line("with its enclosing conditions / loops (RAW = range variable, SPEC = `filters.NewSpec(…, RAW)`, P = receiver) -/")
+	w.Line("def reloadFlowWrites : List String := %s", StrList(writes))
+	w.Line("/-- the store `p.flow = FLOW` comes after the loop over the filter specs and before the binding loop -/")
+	w.Line("def reloadStoreAfterLoop : Bool := %s", Bool(loopIdx >= 0 && storeIdx > loopIdx && bindIdx > storeIdx))
+	// binding loop: what is assigned through the node pointer, under which condition
+	var binds []string
+	if bindIdx >= 0 {
+		rs := fd.Body.List[bindIdx].(*ast.RangeStmt)
+		node := ""
+		for _, s := range rs.Body.List {
+			if as, ok := s.(*ast.AssignStmt); ok && as.Tok == token.DEFINE && len(as.Lhs) == 1 {
+				if ue, ok := as.Rhs[0].(*ast.UnaryExpr); ok && ue.Op == token.AND {
+					node = as.Lhs[0].(*ast.Ident).Name
+					_ = ue
+				}
+			}
+			if is, ok := s.(*ast.IfStmt); ok {
+				for _, b := range is.Body.List {
+					txt := "if " + canon(is.Cond, "", "") + " { " + canon(b, "", "") + " }"
+					if node != "" {
+						txt = strings.ReplaceAll(txt, node+".", "NODE.")
+					}
+					binds = append(binds, txt)
+				}
+			}
+		}
+	}
+	w.Line("/-- the binding loop over FLOW: the filter instance bound to a node is the one registered under the node's FilterName -/")
+	w.Line("def reloadBinding : List String := %s", StrList(binds))
+	// registration of the instances: p.filters[filter.Name()] = filter inside the filter loop
+	reg := 0
+	if loopIdx >= 0 {
+		ast.Inspect(fd.Body.List[loopIdx], func(n ast.Node) bool {
+			if as, ok := n.(*ast.AssignStmt); ok && len(as.Lhs) == 1 {
+				if ie, ok := as.Lhs[0].(*ast.IndexExpr); ok && r.Src(ie.X) == recv+".filters" {
+					if ce, ok := ie.Index.(*ast.CallExpr); ok && strings.HasSuffix(r.Src(ce.Fun), ".Name") && r.Src(as.Rhs[0])+".Name" == r.Src(ce.Fun) {
+						reg++
+					}
+				}
+			}
+			return true
+		})
+	}
+	w.Line("/-- `p.filters[x.Name()] = x` statements in the filter loop -/")
+	w.Line("def reloadRegistersByName : Nat := %d", reg)
+
+	// GlobalFilter.reload: which condition guards the creation of the before / after pipeline
+	gr, err := r.Func(gf, "GlobalFilter", "reload")
+	if err != nil {
+		return err
+	}
+	grecv := gr.Recv.List[0].Names[0].Name
+	var conds []string
+	for _, st := range gr.Body.List {
+		if is, ok := st.(*ast.IfStmt); ok {
+			created := ""
+			ast.Inspect(is.Body, func(n ast.Node) bool {
+				if ce, ok := n.(*ast.CallExpr); ok {
+					if se, ok := ce.Fun.(*ast.SelectorExpr); ok && strings.HasPrefix(se.Sel.Name, "CreateAndUpdate") {
+						created = se.Sel.Name
+					}
+				}
+				return true
+			})
+			if created != "" {
+				conds = append(conds, strings.ReplaceAll(r.Src(is.Cond), grecv+".", "GF.")+" => "+created)
+			}
+		}
+	}
+	w.Line("/-- `GlobalFilter.reload`: condition => pipeline created -/")
+	w.Line("def gfReloadCreates : List String := %s", StrList(conds))
+	return nil
 }
